@@ -477,6 +477,22 @@ def charset(f, facts=None):
         name, args = f[1], f[2]
         if name in CHAR_PREDS and len(args) == 1 and args[0] == CPARAM:
             return set_of(CHAR_PREDS[name])
+        if name == "value" and len(args) == 1 and args[0][0] == "index":
+            # TABLE[c as usize] / TABLE[usize::from(b)] with a compile-time evaluated [bool; N] table: the set of indices whose
+            # entry is true (an index >= N would be a bounds panic, which is C06's business: J15)
+            tbl, idx = args[0][1], args[0][2]
+            for _ in range(3):
+                if idx[0] == "cast":
+                    idx = idx[2]
+                elif idx[0] == "call" and len(idx[2]) == 1 and (idx[1].endswith(" for usize>::from") or idx[1].endswith("::into") or idx[1].endswith(" for u32>::from")):
+                    idx = idx[2][0]
+            v = tbl[3] if tbl[0] == "named" else tbl[1] if tbl[0] == "const" else None
+            if idx == CPARAM and isinstance(v, tuple) and v and v[0] == "array" and all(isinstance(x, bool) for x in v[1]):
+                bits_ = 0
+                for i, x in enumerate(v[1]):
+                    if x:
+                        bits_ |= 1 << i
+                return bits_
         if name.startswith("core::num::<impl u8>::is_ascii") and len(args) == 1 and args[0] == CPARAM:
             nm = name.split("::")[-1][3:]
             return set_of(nm) if nm != "ascii" else (1 << 128) - 1
